@@ -131,3 +131,38 @@ def standin_clientsim(prop, tier, seed, scratch, root):
                               'where': 'mpd_client/src/client/connection.rs', 'rendered': json.dumps(j)[:3000], 'input': {'scenario_seed': j['seed']},
                               'replayed': rep, 'replay_bin': 'client_sim', 'replay_args': args})
     return row
+
+
+def standin_typedfuzz(prop, tier, seed, scratch, root):
+    """random server replies through the real parser and every predefined command's typed conversion, under catch_unwind"""
+    import replay as RP, json
+    from concurrent.futures import ThreadPoolExecutor
+    per = 1500 if tier != 'thorough' else 40000
+    workers = 8
+    row = {'function': 'Command::response of the 22 predefined reply kinds + tuple / Vec command lists, and the accessors of the returned values (responses/*.rs, commands/definitions.rs, commands/command_list.rs)',
+           'engine': 'native random search: replies generated from MPD\'s field vocabulary + junk, pushed through the real Connection::receive and the typed conversion under catch_unwind (replay/src/bin/typed_case.rs)',
+           'label': 'bounded', 'cases': per * workers, 'violations': []}
+    RP.build(scratch)
+    def one(k):
+        return RP.run_bin('typed_case', scratch, ['fuzz', str(1 + max(seed, 0) * 1000 + k), str(per)], timeout=3000)
+    with ThreadPoolExecutor(workers) as ex:
+        rs = list(ex.map(one, range(workers)))
+    if not all(r.get('ran') for r in rs):
+        row['undecided'] = next(r for r in rs if not r.get('ran')).get('reason', 'fuzz did not run'); return row
+    row['bound'] = '%d random replies x 24 reply kinds (seeds %d..%d): <= 4 frames, <= 8 fields each, names from the protocol vocabulary and junk, values numeric / huge / negative / NaN / junk, optional binary' % (per * workers, 1 + max(seed, 0) * 1000, workers + max(seed, 0) * 1000)
+    bad = [r for r in rs if r['fails']]
+    if not bad:
+        js = [json.loads(r.get('full_output', r['output']).strip().split('\n')[-1]) for r in rs]
+        row['result'] = 'no panic'; row['distinct_nontrivial'] = sum(j.get('distinct', 0) for j in js)
+        return row
+    try:
+        j = json.loads(bad[0].get('full_output', bad[0]['output']).strip().split('\n')[-1])
+    except Exception:
+        row['undecided'] = 'fuzz output unreadable: ' + bad[0].get('output', '')[-300:]; return row
+    row['result'] = 'PANIC'; row['deviation'] = j
+    args = ['case', j['kind'], j['reply_hex']]
+    rep = RP.run_bin('typed_case', scratch, args); rep.pop('full_output', None)
+    row['violations'].append({'props': ['C12'], 'ob': 'typed.fuzz', 'fn': 'typed conversion of ' + j['kind'], 'message': 'typed conversion panics on reply %r' % j.get('reply', ''),
+                              'where': 'mpd_client/src/responses', 'rendered': json.dumps(j)[:3000], 'input': {'kind': j['kind'], 'reply_hex': j['reply_hex']},
+                              'replayed': rep, 'replay_bin': 'typed_case', 'replay_args': args})
+    return row
